@@ -279,6 +279,8 @@ def savetoEnv (decl : Bool) (n : Nat) (st : List Frame) (r : Cells) (t : Str) : 
       else if k = "is_section" then flag (Rows.matchControl "begin" true t).isSome
       else none }
 
+def auditType : Str := "audit".toList
+
 def pathOf (root : Str) (st : List Frame) (name : Str) : Str :=
   Form.xpathStr (root :: (st.reverse.map (·.name)) ++ [name])
 
@@ -299,6 +301,8 @@ def walk (decl : Bool) (root : Str) : Nat → List Frame → List Cells → Exce
          | [] => .error (.unsupported "unmatched end")
          | f :: st' => if f.ct = c then walk decl root (n + 1) st' rs else .error (.unsupported "mismatched end"))
       | none =>
+        -- `audit` rows go to the meta block and `continue` before any validation (xls2json.py 700-760)
+        if t = auditType then walk decl root (n + 1) st rs else
         match Rows.get r "name" with
         | none => .error (.unsupported "row without name")
         | some name =>
@@ -330,6 +334,8 @@ structure Out where
   version : Option (String × String)
   /-- `(prefix, uri)` declared on the root element -/
   xmlns : Option (Str × Str)
+  /-- names of the children of the generated `meta` group, in order (`[]`: no meta element) -/
+  metaKids : List Str := []
 deriving Repr, DecidableEq
 
 /-! ### `Survey.get_nsmap` (survey.py 318-342) -/
@@ -377,17 +383,24 @@ def userEntitiesNs (namespaces : Option Str) : Option (Str × Str) :=
 
 def entityName : Str := ((Gen.entityDeclTop.lookup "name").getD "").toList
 
+/-- children of the generated `meta` group (xls2json.py 1404-1430): `meta_children` collects the audit row during
+    the row loop, then `instanceID` (unless `omit_instanceID` is a yes-value), `instanceName` (if the setting
+    exists), and last the entity declaration — `Rows.metaKids` is C04's model of the first three -/
+def metaChildren (settings : Cells) (survey : List Cells) (hasEntity : Bool) : List Str :=
+  (Rows.metaKids survey settings).map (·.name) ++ (if hasEntity then [entityName] else [])
+
 /-- `workbook_to_json` + `Survey.xml`: entities sheet first, then the survey rows (rows numbered from 2),
     then the declaration's nodes.  `entities` are the data rows of the entities sheet after header dealiasing;
-    `namespaces` is the settings cell of that name. -/
-def convert (root : Str) (sub : Str → Str) (namespaces : Option Str) (entities : List Cells) (survey : List Cells) :
+    `settings` is the settings row (cells `namespaces`, `omit_instanceID`, `instance_name` matter here). -/
+def convert (root : Str) (sub : Str → Str) (settings : Cells) (entities : List Cells) (survey : List Cells) :
     Except Rej Out :=
+  let namespaces := Rows.get settings "namespaces"
   match entities with
   | [] =>
     (match walk false root 2 [] survey with
      | .error e => .error e
      | .ok sv => .ok { entity := none, nodes := [], saveto := sv, version := none
-                       xmlns := userEntitiesNs namespaces })
+                       xmlns := userEntitiesNs namespaces, metaKids := metaChildren settings survey false })
   | row :: rest =>
     match getEntityDeclaration row rest with
     | .error e => .error e
@@ -401,7 +414,8 @@ def convert (root : Str) (sub : Str → Str) (namespaces : Option Str) (entities
           let feats := !Gen.entityFeatures.isEmpty
           .ok { entity := some (instanceNode ps), nodes := ns, saveto := sv
                 version := if feats then some (Gen.entitiesVersionAttr, Gen.entitiesOfflineVersion) else none
-                xmlns := (lookup entitiesPrefix (nsExtra namespaces feats)).map fun u => (entitiesPrefix, u) }
+                xmlns := (lookup entitiesPrefix (nsExtra namespaces feats)).map fun u => (entitiesPrefix, u)
+                metaKids := metaChildren settings survey true }
 
 /-- the other namespace declarations on the root element (settings `namespaces`), for the correspondence run -/
 def customNs (namespaces : Option Str) (hasEntity : Bool) : List (Str × Str) :=
